@@ -194,8 +194,10 @@ func (r *messageSetReader) readMessageV1(min int64, key readBytesFunc, val readB
 			r.log("Reading with codec=%T", codec)
 		}
 		if codec != nil {
-			// discard next four bytes...will be -1 to indicate null key
-			if err = r.discardN(4); err != nil {
+			// discard the key of the wrapper message: null (-1) as producers
+			// usually write it, but the format allows a key there and its
+			// bytes must be passed over as well
+			if err = r.discardBytes(); err != nil {
 				return
 			}
 
